@@ -268,8 +268,17 @@ def ssqrt(x, on_negative='nan'):
             raise ValueError('math domain error')
         e.events.append('sqrt_of_negative')
         raise DomainEvent('sqrt of a negative symbolic value (NaN in numpy)')
+    # one auxiliary per radicand and path: the same expression evaluated twice (a recorded sample and its
+    # recomputation) is the same term, not two unknowns related only through non-linear facts
+    memo = getattr(e, '_sqrt_memo', None)
+    if memo is None:
+        memo = e._sqrt_memo = {}
+    key = x.t.get_id()
+    if key in memo:
+        return SR(memo[key][0])
     y = e.fresh_aux('sqrt')
     e.add_path_fact(z3.And(y >= 0, y * y == x.t))
+    memo[key] = (y, x.t)        # the term is kept alive so that its id is not reused
     return SR(y)
 
 
@@ -433,6 +442,7 @@ class Engine:
         self._assumed = set()
         self.path_assumptions = []
         self._path_aux = 0
+        self._sqrt_memo = {}
         self.model = model
         self.solver = z3.Solver()
         self.solver.set('timeout', self.timeout_ms)
